@@ -84,6 +84,8 @@ def _open(case, ctx, weights=None):
     table = case.get("table") or gen.simple_table(n)
     uri = gen.place(ctx.path(), table, case["px"], case["mode"], at=case.get("at"), scale=case.get("scale", 1),
                     prior=case.get("prior", False))
+    if case.get("int_chroms"):
+        gen.int_encode(uri)
     if weights:
         import h5py
         fp, grp = gen.split_uri(uri)
@@ -144,7 +146,8 @@ def rq_api(case, ctx):
             if case.get("table"):
                 names = gen.CHROMNAMES
                 pj = c.matrix(balance=False, as_pixels=True, join=True, chunksize=chunk)[i0:i1, j0:j1]
-                out[-1]["joined"] = [[names.index(str(a)), int(b), int(cc), names.index(str(d)), int(e), int(f), iv(v)]
+                ix = lambda x: names.index(str(x)) if str(x) in names else -1          # a label that is no chromosome name
+                out[-1]["joined"] = [[ix(a), int(b), int(cc), ix(d), int(e), int(f), iv(v)]
                                      for a, b, cc, d, e, f, v in zip(pj["chrom1"], pj["start1"], pj["end1"], pj["chrom2"],
                                                                     pj["start2"], pj["end2"], pj["count"])]
                 # the joined records with their labels kept (ignore_index=False)
